@@ -417,10 +417,10 @@ package ech
 //@         forall(t, firstFrom(rx2, 0xfd00, 0) + 1, ri2, newExt[t + len(newExt) - ri2] == rx2[t] && int(rx2[t].Type) != 0xfd00, trig(rx2[t]))
 //@   loop 3 "!want.Empty()"
 //@     invariant 0 <= p && p <= len(h.Extensions)
-//@     invariant[L:want] sameArray(want, ext.Data) && offset(want) >= offset(ext.Data) + 1 && offset(want) + len(want) == offset(ext.Data) + 1 + int(ext.Data[0]) && (offset(want) - offset(ext.Data) - 1) % 2 == 0
-//@     invariant[L:cursor] p == ite(offset(want) - offset(ext.Data) - 1 <= 0, 0, splicePos(h.Extensions, ext.Data, (offset(want) - offset(ext.Data) - 1)/2 - 1) + 1)
-//@     invariant[L:appended] len(newExt) == entry(len(newExt)) + (offset(want) - offset(ext.Data) - 1)/2 &&
-//@         forall(u, 0, (offset(want) - offset(ext.Data) - 1)/2, splicePos(h.Extensions, ext.Data, u) < len(h.Extensions) &&
+//@     invariant[L:want] sameArray(want, ext.Data) && len(newExt) >= entry(len(newExt)) && offset(want) == offset(ext.Data) + 1 + 2*(len(newExt) - entry(len(newExt))) &&
+//@         offset(want) + len(want) == offset(ext.Data) + 1 + int(ext.Data[0])
+//@     invariant[L:cursor] p == ite(len(newExt) - entry(len(newExt)) <= 0, 0, splicePos(h.Extensions, ext.Data, len(newExt) - entry(len(newExt)) - 1) + 1)
+//@     invariant[L:appended] forall(u, 0, len(newExt) - entry(len(newExt)), splicePos(h.Extensions, ext.Data, u) < len(h.Extensions) &&
 //@             newExt[entry(len(newExt)) + u] == h.Extensions[splicePos(h.Extensions, ext.Data, u)], trig(splicePos(h.Extensions, ext.Data, u))) &&
 //@         forall(t, 0, entry(len(newExt)), newExt[t] == entry(newExt)[t], trig(newExt[t]))
 //@   loop 4 "p < len(h.Extensions) && h.Extensions[p].Type != extType"
@@ -501,3 +501,37 @@ package ech
 //@   check[L:outer-record] err == nil && outConn.inner == nil ==> serOf(outConn.outer, outConn.readBuf)
 //@   check[L:record-is-stream] err == nil ==> len(record) == rpos(conn) - old(rpos(conn)) && forall(j, old(rpos(conn)), rpos(conn), inAt(conn, j) == record[j - old(rpos(conn))])
 //@   ensures[F:errclass] err != nil ==> alertCode(err) == 10 || alertCode(err) == 47 || alertCode(err) == 50 || alertCode(err) == 51 || alertCode(err) == 109 || liberr(err)
+
+// ---------------------------------------------------------------------------
+// resolve.go
+// ---------------------------------------------------------------------------
+
+// ttlMin: ttl is the smallest TTL among the records of the answer section (zero when there are none).
+//@ pure ttlIsMin(ttl uint32, ans []dns.RR) bool = (len(ans) == 0 ==> int(ttl) == 0) &&
+//@     (len(ans) > 0 ==> forall(j, 0, len(ans), int(ttl) <= int(ans[j].TTL), trig(ans[j])) && exists(j, 0, len(ans), int(ttl) == int(ans[j].TTL)))
+
+//@ func Resolver.resolveOneNoCache returns (res, ttl, err)
+//@   requires r != nil
+//@   modifies rpos, closed, reqcount(0)
+//@   allocates dns.Message, retryablehttp.Request, http.Request, retryablehttp.Client, http.Response
+//@   terminates
+//@   ensures[F:error-no-result] err != nil ==> isnil(res) && int(ttl) == 0
+//@   ensures[F:one-upstream-call] reqcount(0) <= old(reqcount(0)) + 1 && (err == nil ==> reqcount(0) == old(reqcount(0)) + 1)
+//@   check[F:ttl-min] err == nil && len(result.Answer) > 0 ==> ttlIsMin(ttl, result.Answer)
+//@   check[F:ttl-negative] err == nil && len(result.Answer) == 0 ==> int(ttl) == 300 && len(res) == 0
+//@   loop 1 "range result.Answer"
+//@     invariant[F:ttl-min] ri1 > 0 ==> ttlIsMin(ttl, result.Answer[:ri1])
+//@     invariant[F:ttl-zero] ri1 == 0 ==> int(ttl) == 0
+//@     invariant[F:res-bound] len(res) <= ri1
+
+//@ func Resolver.resolveOne returns (res, err)
+//@   requires r != nil
+//@   modifies rpos, closed, reqcount(0), gclock(0), all(cacheValue.expiration), all(cacheValue.result)
+//@   allocates dns.Message, retryablehttp.Request, http.Request, retryablehttp.Client, http.Response, cacheValue
+//@   terminates
+//@   check[F:cached-only-if-fresh] err == nil && reqcount(0) == old(reqcount(0)) && cache != nil ==> !tzero(v.expiration) && gclock(0) < tnano(v.expiration)
+//@   capture "r.resolveOneNoCache(ctx, name, typ)" ttl0 = 1
+//@   capture "r.resolveOneNoCache(ctx, name, typ)" res0 = 0
+//@   check[F:expiry] err == nil && reqcount(0) != old(reqcount(0)) && cache != nil ==> tnano(v.expiration) == gclock(0) + int(ttl0)*1000000000 && v.result == res0 && res == res0
+//@   check[F:errors-not-cached] err != nil && cache != nil && !fresh(v) ==> v.expiration == old(v.expiration) && v.result == old(v.result)
+//@   ensures[F:one-upstream-call] reqcount(0) <= old(reqcount(0)) + 1
